@@ -3,10 +3,13 @@
  * controlled scheduler (sched.c) and the transport stub (rcmd_stub.c). */
 #include "src/pdsh/dsh.c"
 
+/* the accessors are never instrumented (mem flavour): they are the harness looking, not pdsh */
+#define NOINSTR __attribute__((no_sanitize("thread")))
+NOINSTR void *verif_threadcount_addr(void) { return (void *) &threadcount; }
 void *verif_tc_mutex(void) { return (void *) &threadcount_mutex; }
 void *verif_tc_cond(void) { return (void *) &threadcount_cond; }
 void *verif_thd_mutex(void) { return (void *) &thd_mutex; }
-int verif_threadcount(void) { return threadcount; }
+NOINSTR int verif_threadcount(void) { return threadcount; }
 int verif_have_t(void) { return t != NULL; }
 
 /* index of a thd_t (the start-routine argument of a worker) in t[] */
